@@ -24,7 +24,7 @@ theorem cleanW_fresh (s : St) (l : Bool) :
 theorem K_updaterCommit (f : Plan) (s : St) (w : Writer)
     (h : w.clean = true → w.guard = true ∧ w.killed = false ∧ w.workers = true ∧
           w.committed = s.metaSegs ∧ w.active = s.metaSegs ∧ w.workerErr = false ∧ w.alive = true ∧ w.queue = []) :
-    K (updaterCommit f s w).1 := by
+    K (updaterCommit sy f s w).1 := by
   unfold updaterCommit
   split
   · simp [K, markErr]
@@ -32,13 +32,15 @@ theorem K_updaterCommit (f : Plan) (s : St) (w : Writer)
     · simp [K, markErr]
     · split
       · simp [K, markErr]
-      · simp only [K, gcRun_writer]
-        intro hc
-        have hc' : w.clean = true := by simpa [published, commitRegs] using hc
-        obtain ⟨h1, h2, h3, h4, h5, h6, h7, h8⟩ := h hc'
-        simp [CleanW, published, commitRegs, gcRun_meta, h1, h2, h3, h6, h7, h8]
+      · split
+        · simp [K, markErr]
+        · simp only [K, gcRun_writer]
+          intro hc
+          have hc' : w.clean = true := by simpa [published, commitRegs] using hc
+          obtain ⟨h1, h2, h3, h4, h5, h6, h7, h8⟩ := h hc'
+          simp [CleanW, published, commitRegs, gcRun_meta, h1, h2, h3, h6, h7, h8]
 
-theorem K_call (cap : Nat) (f : Plan) (s : St) (c : Call) (hk : K s) : K (call cap f s c).1 := by
+theorem K_call (sy : Bool) (cap : Nat) (f : Plan) (s : St) (c : Call) (hk : K s) : K (call sy cap f s c).1 := by
   cases c with
   | newWriter =>
     simp only [call]
@@ -165,11 +167,13 @@ theorem K_call (cap : Nat) (f : Plan) (s : St) (c : Call) (hk : K s) : K (call c
           · simp [K, markErr]
           · split
             · simp [K, markErr]
-            · simp only [K, gcRun_writer]
-              intro hc
-              obtain ⟨h1, h2, h3, h4, h5, h6, h7, h8⟩ := hk (by simpa [mergedPublished, mergedRegs] using hc)
-              simp [CleanW, mergedPublished, mergedRegs, gcRun_meta, h1, h2, h3, h5, newFiles]
-              exact ⟨h7, h8⟩
+            · split
+              · simp [K, markErr]
+              · simp only [K, gcRun_writer]
+                intro hc
+                obtain ⟨h1, h2, h3, h4, h5, h6, h7, h8⟩ := hk (by simpa [mergedPublished, mergedRegs] using hc)
+                simp [CleanW, mergedPublished, mergedRegs, gcRun_meta, h1, h2, h3, h5, newFiles]
+                exact ⟨h7, h8⟩
   | gc =>
     simp only [call]
     cases hs : s.writer with
@@ -206,15 +210,15 @@ theorem K_call (cap : Nat) (f : Plan) (s : St) (c : Call) (hk : K s) : K (call c
         exact hk hc
     · exact hk
 
-theorem K_run (cap : Nat) (F : Nat → Plan) (i : Nat) (s : St) (cs : List Call) (h : K s) :
-    K (run cap F i s cs).1 :=
-  run_inv K cap (fun f s c => K_call cap f s c) F i s cs h
+theorem K_run (sy : Bool) (cap : Nat) (F : Nat → Plan) (i : Nat) (s : St) (cs : List Call) (h : K s) :
+    K (run sy cap F i s cs).1 :=
+  run_inv K sy cap (fun f s c => K_call sy cap f s c) F i s cs h
 
 /-! ### a successful commit -/
 
-theorem updaterCommit_ok {f : Plan} {s : St} {w : Writer} (h : (updaterCommit f s w).2 = .ok) :
-    w.killed = false ∧ f .purge = false ∧ f .saveMeta = false ∧
-    (updaterCommit f s w).1.metaSegs = w.committed ++ w.uncommitted := by
+theorem updaterCommit_ok {sy : Bool} {f : Plan} {s : St} {w : Writer} (h : (updaterCommit sy f s w).2 = .ok) :
+    w.killed = false ∧ f .purge = false ∧ f .saveMeta = false ∧ (sy && f .saveSync2) = false ∧
+    (updaterCommit sy f s w).1.metaSegs = w.committed ++ w.uncommitted := by
   unfold updaterCommit at h ⊢
   split at h
   · cases h
@@ -222,18 +226,21 @@ theorem updaterCommit_ok {f : Plan} {s : St} {w : Writer} (h : (updaterCommit f 
     · cases h
     · split at h
       · cases h
-      · rename_i h1 h2 h3
-        simp only [h1, h2, h3, Bool.false_eq_true, ↓reduceIte, gcRun_meta]
-        exact ⟨by simpa using h1, by simpa using h2, by simpa using h3, rfl⟩
+      · split at h
+        · cases h
+        · rename_i h1 h2 h3 h4
+          simp only [h1, h2, h3, h4, Bool.false_eq_true, ↓reduceIte, gcRun_meta]
+          exact ⟨by simpa using h1, by simpa using h2, by simpa using h3, by simpa using h4, rfl⟩
 
 theorem content_append (a b : List Seg) : content (a ++ b) = content a ++ content b := by
   simp [content]
 
 /-- the commit of a clean writer, when it returns `Ok` -/
-theorem clean_commit_ok {cap : Nat} {f : Plan} {s : St} {w : Writer} (hw : s.writer = some w)
-    (hcw : CleanW s w) (hok : (call cap f s .commit).2 = .ok) :
-    f .purge = false ∧ f .saveMeta = false ∧ (w.acked ≠ [] → f .worker = false) ∧
-    content (call cap f s .commit).1.metaSegs = content s.metaSegs ++ w.acked := by
+theorem clean_commit_ok {sy : Bool} {cap : Nat} {f : Plan} {s : St} {w : Writer} (hw : s.writer = some w)
+    (hcw : CleanW s w) (hok : (call sy cap f s .commit).2 = .ok) :
+    f .purge = false ∧ f .saveMeta = false ∧ (sy && f .saveSync2) = false ∧
+    (w.acked ≠ [] → f .worker = false) ∧
+    content (call sy cap f s .commit).1.metaSegs = content s.metaSegs ++ w.acked := by
   obtain ⟨h1, h2, h3, h4, h5, h6, h7, h8⟩ := hcw
   cases hwe : w.workerErr with
   | true => simp [call, hw, h3, hwe] at hok
@@ -243,8 +250,8 @@ theorem clean_commit_ok {cap : Nat} {f : Plan} {s : St} {w : Writer} (hw : s.wri
     split at hok
     · cases hok
     · rename_i hcond
-      obtain ⟨_, hp, hsv, hm⟩ := updaterCommit_ok hok
-      refine ⟨hp, hsv, ?_, ?_⟩
+      obtain ⟨_, hp, hsv, hs2, hm⟩ := updaterCommit_ok hok
+      refine ⟨hp, hsv, hs2, ?_, ?_⟩
       · intro hne
         rw [← h10] at hne
         cases hq : w.queue with
@@ -258,13 +265,104 @@ theorem clean_commit_ok {cap : Nat} {f : Plan} {s : St} {w : Writer} (hw : s.wri
           simp [h4, h5, ← h10, this]
         · simp [h4, h5, ← h10, content]
 
+theorem updaterCommit_err {sy : Bool} {f : Plan} {s : St} {w : Writer} (h : (updaterCommit sy f s w).2 = .err) :
+    (updaterCommit sy f s w).1.metaSegs = s.metaSegs ∨
+    ((updaterCommit sy f s w).1.metaSegs = w.committed ++ w.uncommitted ∧ sy = true ∧
+      f .saveSync2 = true ∧ f .purge = false ∧ f .saveMeta = false) := by
+  unfold updaterCommit at h ⊢
+  split
+  · exact Or.inl rfl
+  · split
+    · exact Or.inl rfl
+    · split
+      · exact Or.inl rfl
+      · rename_i h1 h2 h3
+        split
+        · rename_i h4
+          right
+          have : sy = true ∧ f .saveSync2 = true := by simpa using h4
+          exact ⟨rfl, this.1, this.2, by simpa using h2, by simpa using h3⟩
+        · rename_i h4
+          simp [h1, h2, h3, h4] at h
+
+/-- the commit of a clean writer, when it returns `Err`: `meta.json` is what it was, or exactly the
+attempted commit (only when the post-rename sync failed) -/
+theorem clean_commit_err {sy : Bool} {cap : Nat} {f : Plan} {s : St} {w : Writer} (hw : s.writer = some w)
+    (hcw : CleanW s w) (herr : (call sy cap f s .commit).2 = .err)
+    (hfiles : segsHaveFiles (call sy cap f s .commit).1.metaSegs (call sy cap f s .commit).1.files) :
+    content (call sy cap f s .commit).1.metaSegs = content s.metaSegs ∨
+    (content (call sy cap f s .commit).1.metaSegs = content s.metaSegs ++ w.acked ∧ sy = true ∧
+      f .saveSync2 = true ∧ f .purge = false ∧ f .saveMeta = false ∧
+      segsHaveFiles (call sy cap f s .commit).1.metaSegs (call sy cap f s .commit).1.files) := by
+  obtain ⟨h1, h2, h3, h4, h5, h6, h7, h8⟩ := hcw
+  cases hwe : w.workerErr with
+  | true => left; simp [call, hw, h3, hwe]
+  | false =>
+    obtain ⟨h9, h10⟩ := h7 hwe
+    simp only [call, hw, h3, hwe, Bool.not_true, Bool.false_eq_true, ↓reduceIte] at herr hfiles ⊢
+    split
+    · exact Or.inl rfl
+    · rename_i hcond
+      rw [if_neg hcond] at herr hfiles
+      have hS : (flushS s w).metaSegs = s.metaSegs := by unfold flushS; split <;> rfl
+      rcases updaterCommit_err herr with hm | ⟨hm, hsy, hs2, hp, hsv⟩
+      · left; rw [hm, hS]
+      · right
+        refine ⟨?_, hsy, hs2, hp, hsv, hfiles⟩
+        rw [hm]
+        unfold flushW
+        split
+        · rename_i hq
+          have : w.queue = [] := by simpa using hq
+          simp [h4, h5, ← h10, this]
+        · simp [h4, h5, ← h10, content]
+
+theorem rollback_noFault (sy : Bool) (cap : Nat) (s1 : St) (w1 : Writer) (h : s1.writer = some w1)
+    (hg : w1.guard = true) :
+    call sy cap noFault s1 .rollback = ({ s1 with writer := some (freshWriter s1) }, .ok) := by
+  simp [call, h, hg, noFault]
+
+theorem flushW_killed (s : St) (w : Writer) : (flushW s w).killed = w.killed := by
+  unfold flushW; split <;> rfl
+theorem flushW_guard (s : St) (w : Writer) : (flushW s w).guard = w.guard := by
+  unfold flushW; split <;> rfl
+
+/-- only the post-rename sync fails in the commit of a clean writer -/
+theorem commit_sync2_clean {cap : Nat} {f : Plan} {s : St} {w : Writer} (hw : s.writer = some w)
+    (hcw : CleanW s w) (hwe : w.workerErr = false)
+    (hf : f .saveSync2 = true ∧ f .worker = false ∧ f .purge = false ∧ f .saveMeta = false) :
+    (call true cap f s .commit).2 = .err ∧
+    content (call true cap f s .commit).1.metaSegs = content s.metaSegs ++ w.acked ∧
+    ∃ w1, (call true cap f s .commit).1.writer = some w1 ∧ w1.guard = true := by
+  obtain ⟨h1, h2, h3, h4, h5, h6, h7, h8⟩ := hcw
+  obtain ⟨hf1, hf2, hf3, hf4⟩ := hf
+  obtain ⟨h9, h10⟩ := h7 hwe
+  have hk : (flushW s { w with alive := true }).killed = false := by rw [flushW_killed]; exact h2
+  have hg : (flushW s { w with alive := true }).guard = true := by rw [flushW_guard]; exact h1
+  have hcall : call true cap f s .commit
+      = updaterCommit true f (flushS s w) (flushW s { w with alive := true }) := by
+    simp [call, hw, h3, hwe, hf2]
+  have hu : updaterCommit true f (flushS s w) (flushW s { w with alive := true })
+      = ({ (flushS s w) with metaSegs := (commitRegs (flushW s { w with alive := true })).committed,
+                             writer := some (markErr (commitRegs (flushW s { w with alive := true }))) }, .err) := by
+    simp [updaterCommit, hk, hf1, hf3, hf4]
+  rw [hcall, hu]
+  refine ⟨rfl, ?_, _, rfl, by simpa [markErr, commitRegs] using hg⟩
+  show content (commitRegs (flushW s { w with alive := true })).committed = _
+  unfold flushW
+  split
+  · rename_i hq
+    have : w.queue = [] := by simpa using hq
+    simp [commitRegs, h4, h5, ← h10, this]
+  · simp [commitRegs, h4, h5, ← h10, content]
+
 /-! ### the lock file -/
 
 /-- plans in which releasing / flushing the lock file never fails -/
 def LockSafe (f : Plan) : Prop := f .lockFlush = false ∧ f .lockDelete = false
 
-theorem stale_call (cap : Nat) (f : Plan) (hf : LockSafe f) (s : St) (c : Call)
-    (h : stale s = false) : stale (call cap f s c).1 = false := by
+theorem stale_call (sy : Bool) (cap : Nat) (f : Plan) (hf : LockSafe f) (s : St) (c : Call)
+    (h : stale s = false) : stale (call sy cap f s c).1 = false := by
   obtain ⟨hf1, hf2⟩ := hf
   cases c with
   | newWriter =>
@@ -304,7 +402,7 @@ theorem stale_call (cap : Nat) (f : Plan) (hf : LockSafe f) (s : St) (c : Call)
     | some w =>
       simp only [stale, hs] at h
       have hu : ∀ (s' : St) (w' : Writer), s'.lockFile = s.lockFile → w'.guard = w.guard →
-          stale (updaterCommit f s' w').1 = false := by
+          stale (updaterCommit sy f s' w').1 = false := by
         intro s' w' hl hg
         unfold updaterCommit
         split
@@ -313,8 +411,10 @@ theorem stale_call (cap : Nat) (f : Plan) (hf : LockSafe f) (s : St) (c : Call)
           · simpa [stale, markErr, hl, hg] using h
           · split
             · simpa [stale, markErr, commitRegs, hl, hg] using h
-            · simp only [stale, gcRun_lock, gcRun_writer]
-              simpa [published, commitRegs, hl, hg] using h
+            · split
+              · simpa [stale, markErr, commitRegs, hl, hg] using h
+              · simp only [stale, gcRun_lock, gcRun_writer]
+                simpa [published, commitRegs, hl, hg] using h
       simp only
       split
       · exact hu _ _ rfl rfl
@@ -368,8 +468,10 @@ theorem stale_call (cap : Nat) (f : Plan) (hf : LockSafe f) (s : St) (c : Call)
           · simpa [stale, markErr, newFiles] using h
           · split
             · simpa [stale, markErr, newFiles, mergedRegs] using h
-            · simp only [stale, gcRun_lock, gcRun_writer]
-              simpa [mergedPublished, mergedRegs, newFiles] using h
+            · split
+              · simpa [stale, markErr, newFiles, mergedRegs] using h
+              · simp only [stale, gcRun_lock, gcRun_writer]
+                simpa [mergedPublished, mergedRegs, newFiles] using h
   | gc =>
     simp only [call]
     cases hs : s.writer with
@@ -397,8 +499,8 @@ theorem stale_call (cap : Nat) (f : Plan) (hf : LockSafe f) (s : St) (c : Call)
     · exact h
 
 /-- dropping the writer when no lock file is orphaned and the delete works: the lock is free -/
-theorem drop_noFault (cap : Nat) (s : St) (h : stale s = false) :
-    call cap noFault s .dropWriter = ({ s with writer := none, lockFile := false }, .ok) := by
+theorem drop_noFault (sy : Bool) (cap : Nat) (s : St) (h : stale s = false) :
+    call sy cap noFault s .dropWriter = ({ s with writer := none, lockFile := false }, .ok) := by
   obtain ⟨m, fl, mg, lf, wr, se, nx⟩ := s
   cases wr with
   | none =>
